@@ -21,7 +21,7 @@ RULE = (
     "group; low-weight rule with >=2 members of one group), set member to default / non-default, set non-oneof field, "
     "parse spec-encoded bytes holding 0..n members in generated order into a fresh or into the current message, "
     "from_dict (classmethod / instance, both casings), copy, deepcopy, pickle round trip, read-only observers. The same "
-    "interpreter is also driven by a hypothesis.stateful RuleBasedStateMachine. Oracle after EVERY step = reference "
+    "interpreter is also driven by a hypothesis.stateful RuleBasedStateMachine, and runs on variants: pydantic dataclasses, single-member groups, odd group / member names, hand-written classes (public field API) whose oneof members are declared interleaved. Oracle after EVERY step = reference "
     "model {group -> member | None} (last write wins): which_one_of names the model's member and value; reading any "
     "other member raises AttributeError; bytes(m) holds exactly that member of the group (spec record parser and "
     "reference WhichOneof); to_dict (both casings) has that member's key and no sibling's. Non-trivial = history with "
@@ -48,9 +48,41 @@ ANY = "<any value>"
 
 
 class Cfg:
-    def __init__(self, name, msg, opts, groups, values, plain):
+    def __init__(self, name, msg, opts, groups, values, plain, handwritten=False):
         self.name, self.msg, self.opts, self.GROUPS, self.VALUES, self.PLAIN = name, msg, tuple(opts), groups, values, plain
         self.MEMBER_GROUP = {m: g for g, ms in groups.items() for m in ms}
+        self.handwritten = handwritten
+
+
+_HAND = {}
+
+
+def handwritten_interleaved(cls):
+    """A hand-written twin of the generated class (public field API): the same fields, declared the way people write
+    them by hand - in an order in which the members of one oneof group are NOT next to each other (round robin over the
+    groups, plain fields in between). Registered in this module so that pickle finds it."""
+    import dataclasses
+    import sys
+
+    import betterproto
+
+    if cls in _HAND:
+        return _HAND[cls]
+    info = BPInfo.of(cls)
+    rows = []
+    seen = {}
+    for f in dataclasses.fields(cls):
+        meta = betterproto.FieldMetadata.get(f)
+        k = seen[meta.group] = seen.get(meta.group, -1) + 1
+        rows.append((k if meta.group else 1, f.name, info.hints[f.name], meta))
+    rows.sort(key=lambda r: (r[0], r[1]))
+    fields = [(n, h, betterproto.dataclass_field(m.number, m.proto_type, map_types=m.map_types, group=m.group, wraps=m.wraps, optional=bool(m.optional)))
+              for _, n, h, m in rows]
+    name = f"{cls.__name__}HandWritten"
+    out = dataclasses.make_dataclass(name, fields, bases=(betterproto.Message,), eq=False, repr=False, module=__name__)
+    setattr(sys.modules[__name__], name, out)
+    _HAND[cls] = out
+    return out
 
 
 ODD_GROUPS = {"payloadKind": ["_2d", "_3d"], "Route": ["viaA", "via_b"], "value__type": ["URL", "class"]}
@@ -68,6 +100,9 @@ CFGS = {
     # starting with an underscore, upper-case, keyword)
     "odd_names": Cfg("odd_names", "OddNames", (), ODD_GROUPS, ODD_VALUES, {"plain": (0, [4])}),
     "odd_names_pydantic": Cfg("odd_names_pydantic", "OddNames", ("pydantic_dataclasses",), ODD_GROUPS, ODD_VALUES, {"plain": (0, [4])}),
+    # hand-written classes (public field API) whose oneof members are declared interleaved, not group by group
+    "handwritten": Cfg("handwritten", "Oneofs", (), GROUPS, VALUES, PLAIN, handwritten=True),
+    "handwritten_odd": Cfg("handwritten_odd", "OddNames", (), ODD_GROUPS, ODD_VALUES, {"plain": (0, [4])}, handwritten=True),
 }
 
 
@@ -116,6 +151,8 @@ class Interp:
         self.c = corpus(opts=cfg.opts)
         self.schema = self.c.schema
         self.cls = self.c.bp(cfg.msg)
+        if cfg.handwritten:
+            self.cls = handwritten_interleaved(self.cls)
         self.mi = self.schema.msg("ks." + cfg.msg)
         self.info = BPInfo.of(self.cls)
         self.adapter = BPAdapter(self.schema)
@@ -356,7 +393,7 @@ def targets(ctx):
     strat = st.lists(op_strategy(), min_size=1, max_size=max_len).map(lambda ops: {"ops": ops})
 
     def variant_strat():
-        return st.sampled_from(["pydantic", "solo", "solo_pydantic", "solo_pydantic", "odd_names", "odd_names", "odd_names_pydantic"]).flatmap(
+        return st.sampled_from(["pydantic", "solo", "solo_pydantic", "solo_pydantic", "odd_names", "odd_names", "odd_names_pydantic", "handwritten", "handwritten", "handwritten_odd"]).flatmap(
             lambda name: st.lists(op_strategy(CFGS[name]), min_size=1, max_size=max_len).map(lambda ops: {"ops": ops, "cfg": name}))
 
     def stateful(ctx_, n, seed):
